@@ -204,9 +204,27 @@ func (v *Verifier) callFuncValue(s *State, call *ast.CallExpr) []*Term {
 			return v.inlineLit(s, li.lit, li.pkg, args, call.Pos())
 		}
 	}
+	// function-type contracts: a contract registered under gvc/functype for the
+	// signature of the called value (first contract parameter is the value itself)
+	if name, ok := funcTypeContracts[types.TypeString(sig, nil)]; ok {
+		if fc := v.eng.contracts["gvc/functype#"+name]; fc != nil {
+			ps := []*types.Var{types.NewVar(token.NoPos, v.pkg.Types, "self", types.Typ[types.Int])}
+			for i := 0; i < sig.Params().Len(); i++ {
+				ps = append(ps, sig.Params().At(i))
+			}
+			fsig := types.NewSignatureType(nil, nil, nil, types.NewTuple(ps...), sig.Results(), sig.Variadic())
+			fake := types.NewFunc(token.NoPos, v.pkg.Types, name, fsig)
+			return v.applyContract(s, fc, fake, nil, nil, append([]*Term{fv}, args...), call.Pos())
+		}
+	}
 	// unknown function value: havoc
 	v.unspec["call of function value at "+v.pos(call.Pos())] = true
 	return v.havocCall(s, sig, "fv")
+}
+
+// funcTypeContracts maps a function type to the name of its contract in gvc/functype.
+var funcTypeContracts = map[string]string{
+	"func() hash.Hash": "hashCtor",
 }
 
 func (v *Verifier) havocCall(s *State, sig *types.Signature, hint string) []*Term {
